@@ -74,7 +74,9 @@ var plainWords = []string{"work", "meeting", "lunch", "call", "with", "the", "te
 var unicodeWords = []string{"café", "naïve", "日本語", "读书", "Ünïcödé", "emoji😀", "Ελληνικά", "кофе", "ñandú", "é", "zero​width", "nb sp", "—dash—", "½", "ﬂuff"}
 var lookAlikeWords = []string{"8:00", "-", "9:00", "1h", "-5m", "?", "??", "2020-01-01", "(8h!)", "8:00-?", "<23:00", "0:30>", "100%", "%d", "%s", "%!", "50%o", "12:00am", "#", "#=", "=x", "a#b", "--flag", "\\-45m", "\\n", "24:00"}
 var jsonWords = []string{"\"quoted\"", "back\\slash", "a/b", "<tag>", "&amp;", "tab\there", " ", " ", "ctl\u0001x", "\u007f", "𝔘𝔫𝔦", "'single'", "{json}", "[1,2]", "\\u0041", "\b", "\f", "é\"\\"}
-var tagShapes = []string{"#work", "#Work", "#WORK", "#home-office", "#under_score", "#读书", "#Ünï", "#ticket=891", "#ticket=892", "#project=\"22/48.3\"", "#call='Liz Jones'", "#a=1", "#a=2", "#a", "#A=1", "#empty=", "#q=\"\"", "#open=\"unterminated", "#x=y-z", "#mix='it\"s'", "#n=\"it's\"", "#t1", "#t2", "#t3", "#dup", "#dup=v", "#dup=V", "#ort=köln", "#ort=zürich", "#city=\"São Paulo\"", "#名前=値", "#tag=\"日本 語\"", "#emoji=\"😀 ok\"", "#size='5\"'", "#q=\"'tis\"", "#x=\"'\"", "#status= open", "#prio="}
+var tagShapes = []string{"#work", "#Work", "#WORK", "#home-office", "#under_score", "#读书", "#Ünï", "#ticket=891", "#ticket=892", "#project=\"22/48.3\"", "#call='Liz Jones'", "#a=1", "#a=2", "#a", "#A=1", "#empty=", "#q=\"\"", "#open=\"unterminated", "#x=y-z", "#mix='it\"s'", "#n=\"it's\"", "#t1", "#t2", "#t3", "#dup", "#dup=v", "#dup=V", "#ort=köln", "#ort=zürich", "#city=\"São Paulo\"", "#名前=値", "#tag=\"日本 語\"", "#emoji=\"😀 ok\"", "#size='5\"'", "#q=\"'tis\"", "#x=\"'\"", "#status= open", "#prio=",
+	// names that extend another name by a character sorting before '=' or after it (row grouping in `tags --values`)
+	"#dup-x", "#dup2", "#dup_x=v", "#a-b", "#a1=3", "#ticket-open", "#ticket2=1", "#t1-a=v", "#t1=w", "#t10"}
 
 // word returns one summary word according to the options.
 func word(r *core.Rand, o *Opts, out *Out) string {
